@@ -1,8 +1,8 @@
 SPECIFICATION Spec
 CONSTANTS
   Configs <- Vod0Quick
-  Fix = TRUE
+  Fix = FALSE
   EmitGen = FALSE
   Seed = 0
-INVARIANTS InvLookupNr InvLookupTimeAll InvTimelineShape InvTimelineEdgeAll InvListedServedAll
+INVARIANTS InvLookupNr InvLookupTime InvTimelineShape InvTimelineEdge InvListedServed
 PROPERTIES ImplMonotone ImplForward ImplPtIdentifiesEdge
